@@ -1191,3 +1191,22 @@ Definition ex_ivf (i : nat) : bytes := repeat (byte_of_N (N.of_nat i)) 16.
 Definition ex_stream := build_stream H0 E0 4 ex_name ex_key ex_ivf ex_file.
 
 Definition tamper_key (j : sdj) : sdj := mkSdj (j_name j) (hex ex_file ++ skipn 14 (j_key j)) (j_sugg j) (j_blobs j) (j_shash j).
+
+(* ------------------------------------------------------------------------------------------ *)
+(* create_stream(old_sort=True): the legacy layout changes only the sd blob bytes and their hash *)
+Theorem old_sort_commitments (H : bytes -> bytes) (E : bytes -> bytes -> bytes -> bytes) maxb name key ivf f :
+  let s := build_stream H E maxb name key ivf f in
+  let o := build_stream_old H E maxb name key ivf f in
+  s_desc o = s_desc s /\ s_cts o = s_cts s /\
+  s_sd_blob o = old_sort_json (s_desc o) /\ s_sd_hash o = hex (H (s_sd_blob o)).
+Proof. repeat split. Qed.
+
+Theorem layout_created (H : bytes -> bytes) (E : bytes -> bytes -> bytes -> bytes) maxb old_sort name key ivf f s :
+  create_stream_layout H E maxb old_sort name key ivf f = Some s ->
+  s_desc s = s_desc (build_stream H E maxb name key ivf f) /\ s_cts s = s_cts (build_stream H E maxb name key ivf f) /\
+  s_sd_blob s = (if old_sort then old_sort_json (s_desc s) else as_json (s_desc s)) /\
+  s_sd_hash s = hex (H (s_sd_blob s)).
+Proof.
+  unfold create_stream_layout, create_stream. destruct (has_dup _); [discriminate|].
+  intro Hs. inversion Hs; subst. destruct old_sort; repeat split.
+Qed.
